@@ -244,6 +244,46 @@ def categoric_summary(prog, fn):
 
 
 
+def comp_signature(e):
+    """a one-`for` comprehension / generator expression up to the name(s) of its loop variable and list-vs-generator:
+    ('list' | 'dict', element text with the variables written $0, $1, ..., iterable text) or None.  The arguments of a starred
+    call may be a list or a generator alike; dict comprehensions keep 'key: value'."""
+    if isinstance(e, ast.Call) and dotted(e.func) in ("list", "tuple") and len(e.args) == 1:
+        e = e.args[0]
+    if isinstance(e, ast.Call) and dotted(e.func) == "dict" and len(e.args) == 1 and isinstance(e.args[0], (ast.GeneratorExp, ast.ListComp)) \
+            and isinstance(e.args[0].elt, ast.Tuple) and len(e.args[0].elt.elts) == 2:
+        g = e.args[0]
+        e = ast.DictComp(key=g.elt.elts[0], value=g.elt.elts[1], generators=g.generators)
+    # dict(zip(D, (f(v) for v in D.values()))): keys and values of one dict iterate in the same order = {k: f(v) for k, v in D.items()}
+    if isinstance(e, ast.Call) and dotted(e.func) == "dict" and len(e.args) == 1 and isinstance(e.args[0], ast.Call) and dotted(e.args[0].func) == "zip" \
+            and len(e.args[0].args) == 2:
+        ks, vs = e.args[0].args
+        if isinstance(ks, ast.Call) and isinstance(ks.func, ast.Attribute) and ks.func.attr == "keys" and not ks.args:
+            ks = ks.func.value
+        if isinstance(vs, (ast.GeneratorExp, ast.ListComp)) and len(vs.generators) == 1 and not vs.generators[0].ifs and isinstance(vs.generators[0].target, ast.Name) \
+                and isinstance(vs.generators[0].iter, ast.Call) and isinstance(vs.generators[0].iter.func, ast.Attribute) \
+                and vs.generators[0].iter.func.attr == "values" and unparse(vs.generators[0].iter.func.value) == unparse(ks):
+            import copy as _copy0
+            v = vs.generators[0].target.id
+            val = _copy0.deepcopy(vs.elt)
+            for n in ast.walk(val):
+                if isinstance(n, ast.Name) and n.id == v:
+                    n.id = "$1"
+            return "dict", f"$0: {unparse(val)}", f"{unparse(ks)}.items()"
+    if not (isinstance(e, (ast.ListComp, ast.GeneratorExp, ast.DictComp)) and len(e.generators) == 1 and not e.generators[0].ifs):
+        return None
+    import copy as _copy
+    e = _copy.deepcopy(e)
+    names = [n.id for n in ast.walk(e.generators[0].target) if isinstance(n, ast.Name)]
+    ren = {nm: f"${i}" for i, nm in enumerate(names)}
+    for n in ast.walk(e):
+        if isinstance(n, ast.Name) and n.id in ren:
+            n.id = ren[n.id]
+    if isinstance(e, ast.DictComp):
+        return "dict", f"{unparse(e.key)}: {unparse(e.value)}", unparse(e.generators[0].iter)
+    return "list", unparse(e.elt), unparse(e.generators[0].iter)
+
+
 def broadcast_of(e):
     """`e` builds an array of a given shape filled with one value: (shape text, value text, dtype text or None) or None.
     Recognised: np.ones(S[, dtype=T]) * V, V * np.ones(S), np.full(S, V[, dtype=T]), np.full(shape=S, fill_value=V),
